@@ -313,7 +313,7 @@ PROPERTIES['C04'] = {
     'configs': three,
     'rules': [keep_keys(olc('LOCK-1'), lambda k: k.startswith(('LOCK-1a', 'LOCK-1c')), 'a result returned without validation is a wrong answer - C03 / C09 - not a use of reclaimed memory'), olc('LOCK-5'), R(olcrules.lock6), R(olcrules.lock6b),
               R(qsbr.q_free_paths), R(qsbr.q_rotation), R(qsbr.q_barriers), R(lambda cfg: qsbr.q_orphans(cfg, parts=('7', '9'))), R(qsbr.q_tagging), R(qsbr.q_last_out), R(qsbr.q_register_epoch), R(qsbr.q_wrap), R(qstate.qs1),
-              R(lambda cfg: qsbr.q_rotation(cfg, parts=('3',))), R(qsbr.q_cas), R(lambda cfg: qsbr.q_orphans(cfg, parts=('8',))), R(qsbr.q_tail_link), R(qsbr.q_sink), R(qsbr.q_list_rmw), keep_keys(R(acc.acc4), lambda k: k.startswith(('ACC-4:loop', 'ACC-4:delete_root')), 'which counters clear() resets is C10'), scoped(R(exc.exc1), _qsbr_roots, 'QSBR thread start / resume / deferred-deallocation request'), R(ptr.ptr3), keep_keys(R(point.lock11), lambda k: 'retry-in-place' not in k, 'a retry in place is a hang - C14 / C09 - not a use of reclaimed memory'), olc_side(R(lambda cfg: nodes.mut1(cfg, parts=('reclaim',))))],
+              R(lambda cfg: qsbr.q_rotation(cfg, parts=('3',))), R(qsbr.q_cas), R(lambda cfg: qsbr.q_orphans(cfg, parts=('8',))), R(qsbr.q_tail_link), R(qsbr.q_sink), R(qsbr.q_list_rmw), keep_keys(R(acc.acc4), lambda k: k.startswith(('ACC-4:loop', 'ACC-4:delete_root')), 'which counters clear() resets is C10'), scoped(R(exc.exc1), _qsbr_roots, 'QSBR thread start / resume / deferred-deallocation request'), R(ptr.ptr3), keep_keys(R(point.lock11), lambda k: k.endswith(':acts'), 'only where the failing side of the lock step goes on to change the tree (write guard, store, retire): a writer acting on a node that failed its lock step unlinks or retires nodes it has no right to; a definitive ANSWER after a failed step is a wrong result - C03 / C09; a retry in place is a hang - C14'), olc_side(R(lambda cfg: nodes.mut1(cfg, parts=('reclaim',))))],
     'technique': 'static analysis: relational typestate dataflow (validate-before-dereference, obsolete-before-retire), who-may-construct rule for immediate-deleter owners; the QSBR who-may-free / ordering / control-dependence rules of C05',
     'explanation': 'Structural safety conditions of "no use of reclaimed memory": LOCK-1, dereference part (no pointer obtained from a node is followed before the read section on that node is re-validated, so a stale pointer to a retired node is never dereferenced; the "no unvalidated result" part of LOCK-1 is C03 / C09) '
                    'and LOCK-5 (every node an OLC operation hands to reclamation was unlocked-and-obsoleted by it first, so readers still holding a section on it restart; checked at restart returns too - a node retired and then abandoned by a restart is still linked), on every path of every OLC function, both key kinds; '
